@@ -4,8 +4,9 @@
     [tab = crc16_table_ref] is discharged for the table translated from the
     source in C17_gen.v. *)
 From Coq Require Import List NArith ZArith Arith Lia Bool.
-From Tongo Require Import Lib.Bits Lib.Res Model.Address Model.Shard Model.Adnl
-  Proofs.Crc16P Proofs.Base64P Proofs.AddressP Proofs.AddressRawP Proofs.ShardP Proofs.AdnlP.
+From Tongo Require Import Lib.Bits Lib.Res Model.Address Model.Shard Model.Adnl Model.AddressTlb
+  Proofs.Crc16P Proofs.Base64P Proofs.AddressP Proofs.AddressRawP Proofs.ShardP Proofs.AdnlP
+  Proofs.AddressTlbP Proofs.ShardP2.
 Import ListNotations.
 Local Open Scope N_scope.
 
@@ -68,10 +69,19 @@ Theorem C17_single_char_rejected :
 Proof. exact single_char_rejected. Qed.
 Print Assumptions C17_single_char_rejected.
 
-(** FINDING (account.go ParseAddress): the bounce flag it derives from the
-    flag byte, b[0]&0x11 == 0x11, is true for every printed form, also the
-    non-bounceable one *)
-Theorem C17_parse_address_bounce_refuted :
+(** ParseAccountID (raw attempt first, then user-friendly) inverts ToHuman too *)
+Theorem C17_parse_account_human :
+  forall tab url bounce testnet wc addr,
+  tab = crc16_table_ref -> length addr = 32%nat -> bytes_ok addr -> (-128 <= wc < 128)%Z ->
+  parse_account (print_human tab url bounce testnet wc addr) = Ok (wc, addr).
+Proof. exact parse_account_human. Qed.
+Print Assumptions C17_parse_account_human.
+
+(** Observation outside the property (the Bounce field of ton.Address is not
+    part of the account id and is not compared): account.go ParseAddress
+    derives it as b[0]&0x11 == 0x11, which is true for every printed form,
+    also the non-bounceable one *)
+Theorem C17_note_parse_address_bounce_always_true :
   forall bounce testnet, go_parse_address_bounce (human_flag bounce testnet) = true.
 Proof. exact go_parse_address_bounce_always. Qed.
 
@@ -95,6 +105,55 @@ Theorem C17_tl_roundtrip :
   (- 2 ^ 31 <= wc < 2 ^ 31)%Z -> length addr = 32%nat ->
   tl_unmarshal (tl_marshal wc addr) = Ok (wc, addr).
 Proof. exact tl_roundtrip. Qed.
+
+(** ** JSON form: the quoted raw form; UnmarshalJSON goes through ParseAccountID,
+       so a JSON string holding the user-friendly form is accepted as well *)
+Theorem C17_json_roundtrip :
+  forall wc addr,
+  (- 2 ^ 31 <= wc < 2 ^ 31)%Z -> length addr = 32%nat -> bytes_ok addr ->
+  json_unmarshal (json_marshal wc addr) = Ok (wc, addr).
+Proof. exact json_roundtrip. Qed.
+Print Assumptions C17_json_roundtrip.
+
+Theorem C17_json_human_roundtrip :
+  forall tab url bounce testnet wc addr,
+  tab = crc16_table_ref -> length addr = 32%nat -> bytes_ok addr -> (-128 <= wc < 128)%Z ->
+  json_unmarshal (34 :: print_human tab url bounce testnet wc addr ++ [34]) = Ok (wc, addr).
+Proof. exact json_human_roundtrip. Qed.
+
+(** ** TL-B form (addr_std, int8 workchain) *)
+
+(** AccountID -> ToMsgAddress -> 267 cell bits -> MsgAddress -> AccountIDFromTlb
+    is the identity, whatever follows the address in the cell *)
+Theorem C17_tlb_roundtrip :
+  forall wc addr rest,
+  (-128 <= wc < 128)%Z -> length addr = 32%nat -> bytes_ok addr ->
+  exists e, tlb_encode (to_msg_address wc addr) = Ok e /\ length e = 267%nat /\
+            account_from_tlb_bits (e ++ rest) = Ok (Some (wc, addr)).
+Proof. exact tlb_account_roundtrip. Qed.
+Print Assumptions C17_tlb_roundtrip.
+
+(** every addr_std value, with or without anycast (depth 1..30 by the schema;
+    the code also takes 31), survives MarshalTLB / UnmarshalTLB *)
+Theorem C17_tlb_std_roundtrip :
+  forall any wc addr rest,
+  any_ok any -> (-128 <= wc < 128)%Z -> length addr = 32%nat -> bytes_ok addr ->
+  exists e, tlb_encode (MAStd any wc addr) = Ok e /\
+            tlb_decode (e ++ rest) = Ok (MAStd any wc addr, rest).
+Proof. exact tlb_std_roundtrip. Qed.
+Print Assumptions C17_tlb_std_roundtrip.
+
+(** anycast rewrite of AccountIDFromTlb, all depths 1..30 (and 31, 32): the
+    first [depth] bits of the address become rewrite_pfx, the other bits stay *)
+Theorem C17_anycast_rewrite :
+  forall d p wc addr,
+  1 <= d <= 32 -> p < 2 ^ d -> length addr = 32%nat -> bytes_ok addr ->
+  exists addr',
+    account_from_tlb (MAStd (Some (d, p)) wc addr) = Ok (Some (wc, addr')) /\
+    length addr' = 32%nat /\
+    bytes_bits addr' = bits_of (N.to_nat d) p ++ skipn (N.to_nat d) (bytes_bits addr).
+Proof. exact anycast_rewrite_full. Qed.
+Print Assumptions C17_anycast_rewrite.
 
 (** ** shard identifiers (uint64 image of the int64) *)
 
@@ -150,6 +209,44 @@ Theorem C17_child_of_parent :
 Proof. exact child_parent. Qed.
 Print Assumptions C17_child_of_parent.
 
+(** the same on arbitrary uint64 shard ids: not the deepest shard / not the root *)
+Theorem C17_parent_of_child_u64 :
+  forall u left, 0 < u -> u < 2 ^ 64 -> 1 <= ctz64 u ->
+  shard_parent (shard_child u left) = u.
+Proof. exact parent_child_u. Qed.
+
+Theorem C17_child_of_parent_u64 :
+  forall u, 0 < u -> u < 2 ^ 64 -> ctz64 u <= 62 ->
+  exists left, shard_child (shard_parent u) left = u.
+Proof. exact child_parent_u. Qed.
+
+(** convertShardIdent and the shard ids returned by ton.GetParents *)
+Theorem C17_shard_of_ident :
+  forall l q, l <= 63 -> shard_of_ident (q * 2 ^ (64 - l)) l = shard_id l q.
+Proof. exact shard_of_ident_id. Qed.
+
+Theorem C17_get_parents :
+  forall l q, l <= 63 -> q < 2 ^ l ->
+  get_parents (q * 2 ^ (64 - l)) l false false = [shard_id l q] /\
+  (1 <= l -> get_parents (q * 2 ^ (64 - l)) l true false = [shard_id (l - 1) (q / 2)]) /\
+  (l <= 62 -> forall split, get_parents (q * 2 ^ (64 - l)) l split true
+                            = [shard_id (l + 1) (2 * q); shard_id (l + 1) (2 * q + 1)]).
+Proof. exact get_parents_all. Qed.
+
+(** MatchBlockID is true exactly when the shorter of the two shard prefixes is
+    a prefix of the longer (same shard, ancestor or descendant); block shard 0
+    never matches *)
+Theorem C17_match_block_iff_related :
+  forall u v s,
+  0 < u -> u < 2 ^ 64 -> 0 < v -> v < 2 ^ 64 -> parse_shard u = Ok s ->
+  let l := N.to_nat (N.min (shard_len u) (shard_len v)) in
+  shard_match_block s v = true <-> top_bits l u = top_bits l v.
+Proof. exact match_block_iff. Qed.
+Print Assumptions C17_match_block_iff_related.
+
+Theorem C17_match_block_zero : forall s, shard_match_block s 0 = false.
+Proof. exact match_block_zero. Qed.
+
 (** ** ADNL base32 *)
 Theorem C17_adnl_roundtrip :
   forall tab addr,
@@ -189,3 +286,17 @@ Example C17_parse_address_trailing_garbage_accepted :
   parse_human (s ++ [33]) = Err EOther /\
   parse_address_lax (s ++ [33]) = Ok (0%Z, repeat 0 32, true).
 Proof. vm_compute. split; reflexivity. Qed.
+
+(* TL-B with anycast on concrete values: depth 3, rewrite_pfx 0b101 *)
+Example C17_anycast_example :
+  let addr := repeat 0 32 in
+  exists e, tlb_encode (MAStd (Some (3, 5)) (-1) addr) = Ok e /\ length e = 275%nat /\
+            account_from_tlb_bits e = Ok (Some ((-1)%Z, 0xA0 :: repeat 0 31)).
+Proof. cbv zeta. eexists. split; [vm_compute; reflexivity|]. split; vm_compute; reflexivity. Qed.
+
+(* addr_std holds an int8: ToMsgAddress truncates a workchain outside -128..127
+   (outside the property's quantifier; such accounts need addr_var) *)
+Example C17_to_msg_address_truncates :
+  to_msg_address 256 (repeat 0 32) = MAStd None 0 (repeat 0 32) /\
+  to_msg_address (-129) (repeat 0 32) = MAStd None 127 (repeat 0 32).
+Proof. split; reflexivity. Qed.
